@@ -17,17 +17,18 @@ SR(name, q) == [op |-> "SR", s1 |-> "", br |-> FALSE, s2 |-> "", body |-> name, 
 EX(name, who) == [op |-> "EX", s1 |-> "", br |-> FALSE, s2 |-> "", body |-> name, he |-> FALSE, eqn |-> "",
                   inc |-> TRUE, who |-> who]
 
-(* quick: 26 actions, histories of length 3 *)
+(* quick: 27 actions, histories of length 3 *)
 MC_AlphaQuick == {
     CF("",  FALSE, "",  "A",   TRUE),       \* A
     CF("-", FALSE, "",  "A",   TRUE),       \* -A
-    CF("",  TRUE,  "-", "A",   TRUE),       \* (-A)
     CF("-", TRUE,  "-", "A",   FALSE),      \* -(-A)       not income
     CF("+", FALSE, "",  "B",   TRUE),       \* +B
     CF("-", TRUE,  "",  "B",   FALSE),      \* -(B)        not income
     CF("+", FALSE, "",  "A*B", TRUE),       \* +A*B
     CF("-", TRUE,  "",  "A*B", TRUE),       \* -(A*B)
-    CF("+", FALSE, "",  "B*A", TRUE),       \* +B*A        the same flow value as A*B
+    CF("-", FALSE, "",  "2*A", TRUE),       \* -2*A        numeric factor: the sign belongs to the whole term
+    CF("",  TRUE,  "-", "2*A", FALSE),      \* (-2*A)      not income
+    CF("-", TRUE,  "",  "A/2", TRUE),       \* -(A/2)
     CF("+", FALSE, "",  "A/B", TRUE),       \* +A/B
     CF("-", TRUE,  "",  "B/A", TRUE),       \* -(B/A)      not the same flow as A/B
     CFE("+", FALSE, "",  "A", D1, TRUE),
@@ -45,12 +46,15 @@ FInner == Form("", TRUE, "-")     FOuter == Form("-", TRUE, "")     FBoth  == Fo
 Forms6 == {FPlain, FPlus, FMinus, FInner, FOuter, FBoth}
 Forms4 == {FPlus, FMinus, FInner, FBoth}
 
-(* thorough, length 3: 54 actions *)
+(* thorough, length 3: 58 actions *)
 MC_AlphaMid ==
-    { CF(f.s1, f.br, f.s2, "A", i) : f \in Forms4, i \in BOOLEAN }
+    { CF(f.s1, f.br, f.s2, "A", i) : f \in {FPlus, FMinus}, i \in BOOLEAN }
+    \cup { CF("", TRUE, "-", "A", TRUE), CF("-", TRUE, "-", "A", FALSE) }
+    \cup { CF(f.s1, f.br, f.s2, "2*A", TRUE) : f \in Forms4 } \cup { CF("-", TRUE, "", "2*A", FALSE) }
+    \cup { CF("-", FALSE, "", b, TRUE) : b \in {"A*2", "A/2", "2/A"} }
     \cup { CF(f.s1, f.br, f.s2, "A/B", i) : f \in {FPlus, FMinus}, i \in BOOLEAN }
     \cup { CF("-", TRUE, "-", "A/B", FALSE) }
-    \cup { CF(f.s1, f.br, f.s2, b, TRUE) : f \in {FPlus, FMinus}, b \in {"B", "A*B", "B*A", "B/A"} }
+    \cup { CF(f.s1, f.br, f.s2, b, TRUE) : f \in {FPlus, FMinus}, b \in {"B", "A*B", "B/A"} }
     \cup { CF("-", TRUE, "-", b, FALSE) : b \in {"B/A", "A*B"} }
     \cup { CFE(f.s1, f.br, f.s2, "A", q, TRUE) : f \in {FPlus, FMinus}, q \in {D1, D2} }
     \cup { CFE("+", FALSE, "", "A", D1, FALSE), CFE("+", FALSE, "", "A", D3, TRUE) }
@@ -62,13 +66,13 @@ MC_AlphaMid ==
 (* thorough, length 4: 20 actions *)
 MC_AlphaLen4 == {
     CF("",  FALSE, "",  "A",   TRUE),  CF("-", FALSE, "",  "A",   TRUE),  CF("-", TRUE,  "-", "A",   FALSE),
-    CF("+", FALSE, "",  "B",   TRUE),  CF("+", FALSE, "",  "A*B", TRUE),  CF("-", TRUE,  "",  "B*A", TRUE),
-    CF("+", FALSE, "",  "A/B", TRUE),  CF("-", TRUE,  "",  "B/A", TRUE),  CF("",  TRUE,  "-", "A/B", FALSE),
+    CF("+", FALSE, "",  "B",   TRUE),  CF("+", FALSE, "",  "A*B", TRUE),  CF("-", FALSE, "",  "2*A", TRUE),
+    CF("+", FALSE, "",  "A/B", TRUE),  CF("-", TRUE,  "",  "B/A", TRUE),  CF("",  TRUE,  "-", "A/2", FALSE),
     CFE("+", FALSE, "", "A", D1, TRUE), CFE("-", FALSE, "", "A", D2, TRUE), CFE("", FALSE, "", "A", "", FALSE),
     EX("A", "S"), EX("A/B", "S"), EX("A", "T"),
     AV("A", ""), AV("A", D3), AV("A", D5), SR("A", D1), SR("A", "0.0") }
 
-(* thorough, length 2: every action of the instance (all six spellings, all six bodies,  *)
+(* thorough, length 2: every action of the instance (all six spellings, all ten bodies,  *)
 (* all nine right-hand-side texts for AddVariable / SetRHS)                              *)
 MC_AlphaFull ==
     { CF(f.s1, f.br, f.s2, b, i) : f \in Forms6, b \in Bodies, i \in BOOLEAN }
